@@ -37,7 +37,7 @@ CLI_SAMPLE = 40  # one case in CLI_SAMPLE also goes through the command line
 
 def budget(tier: str) -> int:
     """generated cases"""
-    return 3200 if tier == "quick" else 80000
+    return 3200 if tier == "quick" else 40000
 
 
 def time_budget(tier: str) -> float:
